@@ -16,10 +16,10 @@ import (
 	"strings"
 	"sync"
 	"time"
+	"verifharness/minex"
 
 	"go.sia.tech/core/consensus"
 	"go.sia.tech/core/types"
-	"go.sia.tech/coreutils"
 	"go.sia.tech/coreutils/chain"
 	"go.sia.tech/coreutils/testutil"
 	"go.sia.tech/coreutils/wallet"
@@ -100,7 +100,7 @@ type ftxn struct {
 	toSign   []types.Hash256
 	toSignV2 []int
 	inputs   []types.SiacoinOutputID // the inputs the wallet added
-	nForeign int                      // inputs of the other party that were in the transaction before
+	nForeign int                     // inputs of the other party that were in the transaction before
 	signed   bool
 	inPool   bool
 	released bool
@@ -120,24 +120,24 @@ type env struct {
 	ws      *orderedStore
 	w       *wallet.SingleAddressWallet
 	// a second party whose outputs serve as the inputs a caller put into a transaction before funding it
-	opk     types.PrivateKey
-	oaddr   types.Address
-	ouc     types.UnlockConditions
-	ows     *testutil.EphemeralWalletStore
-	ow      *wallet.SingleAddressWallet
-	oused   map[types.SiacoinOutputID]bool
-	cfg     config
-	delay   uint64
+	opk   types.PrivateKey
+	oaddr types.Address
+	ouc   types.UnlockConditions
+	ows   *testutil.EphemeralWalletStore
+	ow    *wallet.SingleAddressWallet
+	oused map[types.SiacoinOutputID]bool
+	cfg   config
+	delay uint64
 
-	next   int // next small output id
-	ids    map[types.SiacoinOutputID]int
-	byID   map[int]types.SiacoinOutputID
-	values map[types.SiacoinOutputID]types.Currency
-	txns   map[int]*ftxn
-	uniq   int
-	gate   *gate // lets a script hold one pool insertion of the wallet (see gated.go)
-	lagging int // empty blocks the manager has and the wallet's store has not processed yet
-	nextH  int
+	next    int // next small output id
+	ids     map[types.SiacoinOutputID]int
+	byID    map[int]types.SiacoinOutputID
+	values  map[types.SiacoinOutputID]types.Currency
+	txns    map[int]*ftxn
+	uniq    int
+	gate    *gate // lets a script hold one pool insertion of the wallet (see gated.go)
+	lagging int   // empty blocks the manager has and the wallet's store has not processed yet
+	nextH   int
 
 	epochStart time.Time
 	lastOpEnd  time.Time
@@ -247,7 +247,7 @@ func (e *env) foreign(n int) (out []types.SiacoinElement) {
 
 // mineOne mines one block on the tip paying addr and returns it.
 func (e *env) mineOne(addr types.Address) types.Block {
-	b, ok := coreutils.MineBlock(e.cm, addr, 5*time.Second)
+	b, ok := minex.MineBlock(e.cm, addr)
 	if !ok {
 		panic("could not mine a block")
 	}
